@@ -96,19 +96,24 @@ structure Frame (s s' : St) : Prop where
   susp : s'.suspended = s.suspended
   fnsLen : s.fns.length ≤ s'.fns.length
   fns : ∀ id, id < s.fns.length → fnOf s' id = fnOf s id
+  loopsLen : s.loops.length ≤ s'.loops.length
+  loops : ∀ id, id < s.loops.length → s'.loops.getD id {} = s.loops.getD id {}
 
-theorem Frame.refl (s : St) : Frame s s := ⟨rfl, rfl, rfl, rfl, Nat.le_refl _, fun _ _ => rfl⟩
+theorem Frame.refl (s : St) : Frame s s :=
+  ⟨rfl, rfl, rfl, rfl, Nat.le_refl _, fun _ _ => rfl, Nat.le_refl _, fun _ _ => rfl⟩
 
 theorem Frame.trans {a b c : St} (h₁ : Frame a b) (h₂ : Frame b c) : Frame a c :=
   ⟨h₂.linear.trans h₁.linear, h₂.curfunc.trans h₁.curfunc, h₂.addr.trans h₁.addr, h₂.susp.trans h₁.susp,
    Nat.le_trans h₁.fnsLen h₂.fnsLen,
-   fun id hid => (h₂.fns id (Nat.lt_of_lt_of_le hid h₁.fnsLen)).trans (h₁.fns id hid)⟩
+   fun id hid => (h₂.fns id (Nat.lt_of_lt_of_le hid h₁.fnsLen)).trans (h₁.fns id hid),
+   Nat.le_trans h₁.loopsLen h₂.loopsLen,
+   fun id hid => (h₂.loops id (Nat.lt_of_lt_of_le hid h₁.loopsLen)).trans (h₁.loops id hid)⟩
 
 theorem Frame.jmp (s : St) (p : Int) (d : List (Option Val)) : Frame s (s.jmp p d) :=
-  ⟨rfl, rfl, rfl, rfl, Nat.le_refl _, fun _ _ => rfl⟩
+  ⟨rfl, rfl, rfl, rfl, Nat.le_refl _, fun _ _ => rfl, Nat.le_refl _, fun _ _ => rfl⟩
 
 theorem Frame.bind (s : St) (id : Nat) (x : String) (v : Val) : Frame s (s.bind id x v) :=
-  ⟨rfl, rfl, rfl, rfl, Nat.le_refl _, fun _ _ => rfl⟩
+  ⟨rfl, rfl, rfl, rfl, Nat.le_refl _, fun _ _ => rfl, Nat.le_refl _, fun _ _ => rfl⟩
 
 /-! ## The parent chain of the current function -/
 
